@@ -86,6 +86,8 @@ func stepsWorker(req N) (resp N) {
 	machine = vm.New(code, cfg.VMOpts()...)
 	act := 0 // activation counter: a new number whenever fp changes upward
 	lastFp := -1
+	var lastOp op.Code
+	lastIP, lastA := -1, 0
 	actOf := map[int]int{}
 	vm.VerifStep = func(m *vm.VirtualMachine, fp, ip int, opcode op.Code, sp int) {
 		if m != machine {
@@ -95,11 +97,20 @@ func stepsWorker(req N) (resp N) {
 			truncated = true
 			return
 		}
-		if fp > lastFp {
+		// a new activation: a deeper frame, or execution restarting at instruction 0 in the same frame slot
+		// (a callee that failed or returned, then another call from Go: try handlers, deferred calls, callbacks)
+		// unless the previous instruction there was a backward jump to 0 (a loop at the start of a body)
+		restart := fp == lastFp && ip == 0 && !(lastOp == op.JumpBackward && lastIP-lastA == 0)
+		if fp > lastFp || restart {
 			act++
 			actOf[fp] = act
 		}
 		lastFp = fp
+		lastOp, lastIP = opcode, ip
+		lastA = 0
+		if operandCount(opcode) >= 1 {
+			lastA = m.VerifOperand(1)
+		}
 		a, b := 0, 0
 		if n := operandCount(opcode); n >= 1 {
 			a = m.VerifOperand(1)
